@@ -22,7 +22,7 @@ MANIFEST_INFO = {
     "engine": "C",
     "design_ref": "DESIGN.md section 5, C13",
     "technique": "stateless preemption-bounded exhaustive exploration of the real ConcurrentTestSuite / ConcurrentStreamTestSuite with testtools.testsuite's threading and Queue replaced by scheduler shims; injected faults (caller's result raising, make_tests iterator failing, KeyboardInterrupt at queue.get); per-worker sequential reference runs as differential oracle; deadlock detection",
-    "level_text": "1-3 workers each reporting 0-2 tests (incl. workers whose run() raises before/after reporting - an Exception or SystemExit -, TestSuite-like unhashable/equal sub-suites, a stream-native worker replaying events with timestamp=None, a worker emitting 300 events against bounded queues, an aborted run followed by a second run of the same suite object) are run by the real suites under every schedule with <= 2 preemptions (quick; 3 thorough) and <= 1 fault. Every execution is checked: each sub-suite entered once in its own thread, run() returns only after all workers finished, every worker event delivered exactly once and in order (compared with a sequential reference run of the same worker), contiguous per-test blocks, broken-runner reporting, stop-all + propagation on abort, no deadlock.",
+    "level_text": "1-3 workers each reporting 0-2 tests (incl. workers whose run() raises before/after reporting - an Exception or SystemExit -, TestSuite-like unhashable/equal sub-suites, a stream-native worker replaying events with timestamp=None, stream-native workers whose events carry their own route code, a worker emitting 300 events against bounded queues, an aborted run followed by a second run of the same suite object) are run by the real suites under every schedule with <= 2 preemptions (quick; 3 thorough) and <= 1 fault. Every execution is checked: each sub-suite entered once in its own thread, run() returns only after all workers finished, every worker event delivered exactly once and in order (compared with a sequential reference run of the same worker), contiguous per-test blocks, broken-runner reporting, stop-all + propagation on abort, no deadlock.",
     "level_note": "Scheduling points at semaphore/queue/thread operations and at calls on the caller's result; worker-local objects (ExtendedToStreamDecorator, StreamToQueue, forwarders) are owned by one thread. Wall-clock timestamps are only required to be present.",
 }
 
@@ -69,6 +69,12 @@ class Worker:
                     for k in range(300):
                         result.status(test_id=tid, file_name="log", file_bytes=b"c", eof=(k == 299), mime_type="text/plain")
                     result.status(test_id=tid, test_status="success")
+                    continue
+                if self.native == "routed":
+                    # forwards a nested runner's events, which carry that runner's own route code
+                    final = {"addSuccess": "success", "addFailure": "fail", "addSkip": "skip"}[outcome]
+                    result.status(test_id=tid, test_status="inprogress", route_code="sub")
+                    result.status(test_id=tid, test_status=final, route_code="sub")
                     continue
                 if self.native:
                     # replays recorded event dicts: every field is given, the timestamp as None
@@ -122,13 +128,16 @@ CONFIGS = {
     # sub-suites that are plain-TestSuite-like: unhashable, and equal to one another
     "w2suites": [([("a1", "addSuccess")], None, "suite"), ([("b1", "addFailure")], None, "suite")],
     "w2native": [([("a1", "addSuccess")], None), ([("b1", "addFailure"), ("b2", "addSkip")], None, "native")],
+    # stream-native workers whose events carry a route code of their own: the suite's code is
+    # prefixed to it (and a suite code of None leaves it as it is)
+    "w2routed": [([("a1", "addSuccess")], None, "routed"), ([("b1", "addFailure"), ("b2", "addSkip")], None, "routed")],
     "w2x2": [([("a1", "addSuccess"), ("a2", "addFailure")], None), ([("b1", "addSkip"), ("b2", "addError")], None)],
     "w3x1": [([("a1", "addSuccess")], None), ([("b1", "addFailure")], None), ([("c1", "addSkip")], None)],
     "w4": [([("a1", "addSuccess")], None), ([("b1", "addFailure")], None), ([("c1", "addSkip")], None), ([], 0)],
 }
 ROUTES = ["0", "1", None, "3"]
 # harnesses whose workers share a route code (the docstring allows any code, None included)
-ROUTES_OF = {"w2same": ["0", "0"], "w2none": [None, None]}
+ROUTES_OF = {"w2same": ["0", "0"], "w2none": [None, None], "w2routed": ["0", None]}
 
 
 def routes_of(config):
@@ -136,7 +145,7 @@ def routes_of(config):
 
 
 def make_workers(config):
-    return [(SuiteLikeWorker if spec[2:] == ("suite",) else ExitingWorker if spec[2:] == ("exit",) else Worker)("w%d" % i, spec[0], spec[1], native=("chatty" if spec[2:] == ("chatty",) else spec[2:] == ("native",))) for i, spec in enumerate(CONFIGS[config])]
+    return [(SuiteLikeWorker if spec[2:] == ("suite",) else ExitingWorker if spec[2:] == ("exit",) else Worker)("w%d" % i, spec[0], spec[1], native=(spec[2] if spec[2:] in (("chatty",), ("routed",)) else spec[2:] == ("native",))) for i, spec in enumerate(CONFIGS[config])]
 
 
 class Observer:
@@ -376,7 +385,8 @@ def _broken(test_id):
 def _norm_event(d, route=None, set_route=True):
     d = dict(d)
     if set_route:
-        d["route_code"] = route
+        own = d.get("route_code")
+        d["route_code"] = route if own is None else own if route is None else route + "/" + own
     d["timestamp"] = "T"  # presence is checked on the caller's result; values are wall-clock or supplied
     if d.get("file_name") == "traceback":
         # traceback text (and hence its chunking) depends on the call stack: keep one token
@@ -591,6 +601,8 @@ def _check_csts_log(r, ref, log, aborted_by, nfaults):
         per_route.setdefault(key, []).append(_norm_event(kw, set_route=False))
     for i, evs in enumerate(ref):
         route = routes[i]
+        if r.config == "w2routed":
+            route = "sub" if route is None else route + "/sub"
         if shared_routes:
             route = (route, "abcd"[i])
         got = collapse_tb(per_route.pop(route, []))
@@ -633,6 +645,7 @@ def plan(tier):
                 out.append((kind, "w2same", (1, 1), None, False))
                 out.append((kind, "w2native", (1, 1), None, False))
                 out.append((kind, "w2chatty", (1, 0), None, False))
+                out.append((kind, "w2routed", (1, 0), None, False))
             if kind == "csts":
                 # (the caller's result raising aborts ConcurrentStreamTestSuite.run)
                 out.append((kind, "w1+rerun", (1, 1), None, False))
